@@ -137,6 +137,9 @@ class SyncInterpreter(BaseInterpreter[TContext, TEvent]):
         self._queue_lock = threading.Lock()
         self._after_threads: Dict[str, threading.Thread] = {}
         self._after_events: Dict[str, threading.Event] = {}
+        #: Actor ids of child machines started by `invoke`, keyed by the id of
+        #: the invoking state, so that leaving the state can stop them.
+        self._invoked_actors: Dict[str, List[str]] = {}
         #: Cancellation flags for pending delayed sends, released by `stop()`.
         self._pending_send_cancels: Set[threading.Event] = set()
 
@@ -1227,7 +1230,11 @@ class SyncInterpreter(BaseInterpreter[TContext, TEvent]):
                 if on_complete is not None:
                     self._queue_actor_done(child, on_complete)
                 child.stop()
-                self._actors.pop(actor_id, None)
+                # Only unregister our own child: the invoking state may have
+                # been re-entered meanwhile and registered a new one under
+                # the same id.
+                if self._actors.get(actor_id) is child:
+                    self._actors.pop(actor_id, None)
                 logger.info("🧹 Actor thread for '%s' cleaned up.", actor_id)
 
         # 🚀 Start the thread
@@ -1276,6 +1283,16 @@ class SyncInterpreter(BaseInterpreter[TContext, TEvent]):
         Args:
             state (StateNode): The state whose timers should be cancelled.
         """
+        # 🤖 Stop child machines this state invoked. Only their `after`
+        #    timers used to be cancelled here, so an invoked machine kept
+        #    running - receiving events, firing its own timers - long after
+        #    the state that owned it had been left, until it happened to
+        #    finish or the parent was stopped.
+        for actor_id in self._invoked_actors.pop(state.id, []):
+            child = self._actors.pop(actor_id, None)
+            if child is not None:
+                child.stop()
+
         state_prefix = f"{state.id}::"  # our internal key scheme
         to_cancel = [
             k
@@ -1414,6 +1431,11 @@ class SyncInterpreter(BaseInterpreter[TContext, TEvent]):
                 ),
                 Event(type=f"invoke.{invocation.id}"),
                 on_complete=invocation.id,
+            )
+            # 🧾 Remember who owns the child: an invoked machine lives only as
+            #    long as the invoking state is active.
+            self._invoked_actors.setdefault(owner_id, []).append(
+                f"{self.id}:{invocation.id}"
             )
             return
 
